@@ -443,8 +443,8 @@ def build(tgt, m):
         signal.setitimer(signal.ITIMER_REAL, 0)
         signal.signal(signal.SIGALRM, old)
     exts = externals_of(m)
-    if len(exts) > 16:
-        return "avoided", "more than 16 externals"
+    if len(exts) > 64:
+        return "avoided", "more than 64 externals"
     try:
         objs = [obj]
         if exts:
